@@ -61,6 +61,12 @@ def run(ctx):
             e = ev[f["i"] - 1]
             ctx.report(dict(classify(e, f["mon"]), conforms=f.get("conforms", True)), {"driver": "h-aux c45 " + " ".join(map(str, args)), "event": e})
     ctx.distinct += len(seen)
+    # instruction-level binding (real GLV instructions in world R2): ops/glv.rs is executed there
+    try:
+        import props.c45rt as rt
+        rt.run_rt(ctx)
+    except ImportError:
+        pass
     for k, v in stats.items():
         if v == 0:
             raise vlib.ToolError("vacuity: no event of class %s" % k)
